@@ -57,6 +57,9 @@ def scan_assumptions(text, lm):
         if region[0] == 'prelude':
             k = '%s:%s' % (region[1], m.group(0).strip('( '))
             allowed[k] = allowed.get(k, 0) + 1
+        elif region[0] == 'import' and 'external_body' in m.group(0):
+            k = 'import:%s' % region[1]
+            allowed[k] = allowed.get(k, 0) + 1
         else:
             inside.append(dict(line=i, region=list(region), text=ln.strip()[:160]))
     return allowed, inside
@@ -102,6 +105,7 @@ class UnitRun:
         self.extracted_hash = ''
         self.verified = 0
         self.path = ''
+        self.imports = []
 
 
 def run_unit(mod, tier='quick', do_canary=True, mutate=None, tag=''):
@@ -122,6 +126,7 @@ def run_unit(mod, tier='quick', do_canary=True, mutate=None, tag=''):
     open(path, 'w').write(text)
     ur.path = path
     ur.items = u.items
+    ur.imports = u.imports
     ur.rewrites = u.rewrites
     ur.assumed = u.assumed
     ur.extracted_hash = u.extracted_hash()
@@ -266,7 +271,8 @@ def run_units(names, tier):
 
 
 def write_evidence(pid, tier, seed, runs, obligations, discharged, violations, kf_lines, undecided, wall, extra=None):
-    os.makedirs(os.path.join(VERIF, 'evidence'), exist_ok=True)
+    evdir = os.environ.get('VERIF_EVIDENCE_DIR') or (os.path.join(VERIF, 'evidence') if os.path.realpath(REPO) == '/repo' else os.path.join(OUT, 'evidence-scratch'))
+    os.makedirs(evdir, exist_ok=True)
     trusted = ['Verus %s + bundled Z3' % verus.verus_version(),
                'vx extraction and rewrite rules (DESIGN.md 3.2); counts under coverage.rewrites',
                'rustc compiles the extracted text to the same behaviour as in the crate']
@@ -317,7 +323,7 @@ def write_evidence(pid, tier, seed, runs, obligations, discharged, violations, k
         wall_s=round(wall, 2), violations=violations)
     if extra:
         ev['coverage'].update(extra)
-    json.dump(ev, open(os.path.join(VERIF, 'evidence', '%s.json' % pid), 'w'), indent=1)
+    json.dump(ev, open(os.path.join(evdir, '%s.json' % pid), 'w'), indent=1)
 
 
 def check_property(pid, tier='quick', seed=0):
@@ -330,6 +336,27 @@ def check_property(pid, tier='quick', seed=0):
     kf = known_findings()
     base = baseline()
     undecided = []
+    # cross-unit imports: the exporting unit must be part of this run and must have proved the item
+    need = set()
+    for r in runs:
+        for im in getattr(r, 'imports', []):
+            need.add((im['from_unit'], im['key'], r.name))
+    extra_units = sorted(set(n for n, k, w in need) - set(names))
+    if extra_units:
+        names = names + extra_units
+        runs = run_units(names, tier)
+        for r in runs:
+            for im in getattr(r, 'imports', []):
+                need.add((im['from_unit'], im['key'], r.name))
+    byname = {r.name: r for r in runs}
+    for fu, key, who in sorted(need):
+        er = byname.get(fu)
+        if er is None:
+            undecided.append('%s imports %s from %s which was not run' % (who, key, fu))
+            continue
+        st = er.obligations.get('%s.safety' % key, {}).get('status')
+        if st != 'discharged':
+            undecided.append('%s relies on the contract of %s, whose proof in %s is %s' % (who, key, fu, st))
     violations = []
     kf_lines = []
     n_obl = n_dis = 0
